@@ -91,7 +91,7 @@ def build(case, rec):
   feats = set()
   for k in range(30):
     x0, f0 = gen.gen(case["seed"] * 1000003 + k, P)
-    if "density=" in x0.split("</option>")[0] and rng.random() < 0.7:
+    if "density=" in x0.split("</option>")[0] and rng.random() < 0.35:
       x1 = add_fluidshape(x0, rng)
     else:
       x1 = x0
@@ -186,7 +186,7 @@ def run_case(case):
   nworld = 2
   nv = mjm.nv
   dt = float(mjm.opt.timestep)
-  states = [gen.sample_state(mjm, rng, vel=rng.choice([0.5, 3.0])) for _ in range(nworld)]
+  states = [gen.sample_state(mjm, rng, vel=rng.choice([0.5, 3.0, 10.0])) for _ in range(nworld)]
   d = mw.make_data(mjm, m, states)
 
   def prepare():
@@ -229,10 +229,18 @@ def run_case(case):
         bdy = mjm.geom_bodyid[g]
         if np.abs(mjm.geom_pos[g] - mjm.body_ipos[bdy]).max() > 1e-6:
           offset_ellipsoid = True
-  suffix = ":ellipsoid-fluid-geom-offset-from-com" if offset_ellipsoid else ""
   has_ellipsoid = has_fluid and bool(np.any(mjm.geom_fluid[:, 0] > 0))
-  # MJWarp symmetrises the ellipsoid-model derivative for implicitfast; MuJoCo 3.13's qDeriv keeps it unsymmetric
-  fast_sig = "qDeriv:implicitfast" + (":ellipsoid-fluid-derivative-symmetrized" if has_ellipsoid else "")
+  # One mechanism signature per judged group, by precedence (a model in class A hides other errors in the same group,
+  # the share of such models is reported in coverage):
+  #  A fluid:ellipsoid-geom-offset-from-com            root cause in passive.py (force applied at the COM, arm missing)
+  #  B qDeriv:muscle-gain-velocity-term                entries touched by a muscle-gain actuator
+  #  C qDeriv:implicit:fluid-derivative-mirrored...    upper triangle of the implicit matrix in fluid models
+  #  D qDeriv:implicitfast:ellipsoid-fluid-derivative-symmetrized
+  SIG_A = "fluid:ellipsoid-geom-offset-from-com"
+  SIG_B = "qDeriv:muscle-gain-velocity-term"
+  SIG_C = "qDeriv:implicit:fluid-derivative-mirrored-into-upper-triangle"
+  SIG_D = "qDeriv:implicitfast:ellipsoid-fluid-derivative-symmetrized"
+  fast_sig = SIG_D if has_ellipsoid else "qDeriv:implicitfast"
   muscle_ids = [i for i in range(mjm.nu) if int(mjm.actuator_gaintype[i]) == int(mujoco.mjtGain.mjGAIN_MUSCLE)]
   if offset_ellipsoid:
     rec.cover("models_with_offset_ellipsoid_fluid_geom", 1)
@@ -241,7 +249,7 @@ def run_case(case):
 
   def judge_split(name, got, ref, sel, allow, noise, base_sig, mus, allow_abs, ctx):
     """Judges the selected entries; entries touched by a muscle actuator / fluid-upper-triangle carry their own sig."""
-    groups = [("", sel & ~mus, base_sig + suffix), (":muscle", sel & mus, base_sig + ":muscle-gain-velocity-term" + suffix)]
+    groups = [("", sel & ~mus, SIG_A if offset_ellipsoid else base_sig), (":muscle", sel & mus, SIG_A if offset_ellipsoid else SIG_B)]
     out = "ok"
     for tag, msk, sig in groups:
       if msk.any():
@@ -292,7 +300,7 @@ def run_case(case):
     if outside.any():
       rec.viol("qDeriv:implicit:structure", f"MuJoCo's qDeriv has {int(outside.sum())} non-zero entries outside MJWarp's D-structure {ctx}")
     judge_split("qDeriv_implicit_lower", Di_got, Di_ref, mask & tril, A, 0.0, "qDeriv:implicit", mus, allow_abs, ctx)
-    up_sig = "qDeriv:implicit:fluid-derivative-mirrored-into-upper-triangle" if has_fluid else "qDeriv:implicit"
+    up_sig = SIG_C if has_fluid else "qDeriv:implicit"
     judge_split("qDeriv_implicit_upper", Di_got, Di_ref, mask & ~tril, A, 0.0, up_sig, mus, allow_abs, ctx)
     # finite-difference oracle: consulted where it agrees with MuJoCo's analytic derivative
     Dfd = fd_qderiv(mjm, st)
@@ -302,7 +310,7 @@ def run_case(case):
     rec.cover("fd_entries_trusted", int(trusted.sum()))
     rec.cover("fd_entries_untrusted", int((mask & ~trusted).sum()))
     judge_split("qDeriv_vs_fd_lower", Di_got, Dfd, trusted & tril, 1e-4, fd_tol / cmp.C_NOISE, "qDeriv:implicit:finite-difference", mus, allow_abs, ctx)
-    judge_split("qDeriv_vs_fd_upper", Di_got, Dfd, trusted & ~tril, 1e-4, fd_tol / cmp.C_NOISE, up_sig + ":finite-difference", mus, allow_abs, ctx)
+    judge_split("qDeriv_vs_fd_upper", Di_got, Dfd, trusted & ~tril, 1e-4, fd_tol / cmp.C_NOISE, SIG_C if has_fluid else "qDeriv:implicit:finite-difference", mus, allow_abs, ctx)
     # (iii) step
     for name in ("implicitfast", "implicit"):
       integ = mujoco.mjtIntegrator.mjINT_IMPLICITFAST if name == "implicitfast" else mujoco.mjtIntegrator.mjINT_IMPLICIT
@@ -311,17 +319,19 @@ def run_case(case):
       sref, snoise, _ = reference_el(m2, st, mujoco.mj_step, lambda mm, dd: {"qvel": dd.qvel}, seed=case["seed"] + w)
       vref = sref["qvel"]
       sig = "step:" + name + ":qvel"
-      if muscle_ids:
-        sig += ":muscle-gain-velocity-term"
-      if name == "implicit" and has_fluid:
-        sig += ":fluid"
-      if name == "implicitfast" and has_ellipsoid:
-        sig += ":ellipsoid-fluid"
+      if offset_ellipsoid:
+        sig = SIG_A
+      elif muscle_ids:
+        sig = SIG_B
+      elif name == "implicit" and has_fluid:
+        sig = SIG_C
+      elif name == "implicitfast" and has_ellipsoid:
+        sig = SIG_D
       Aref = M_ref - dt * (Df_ref if name == "implicitfast" else Di_ref)
       if name == "implicitfast":
         Aref = np.tril(Aref) + np.tril(Aref, -1).T
       cnd = float(np.linalg.cond(Aref))
-      judge_el(rec, "qvel_after_step_" + name, qvel_next[name][w], vref, max(1e-4, 3e-7 * cnd), snoise["qvel"], scale=max(1.0, float(np.abs(vref).max()), dt * qacc_max), sig=sig + suffix, ctx=ctx)
+      judge_el(rec, "qvel_after_step_" + name, qvel_next[name][w], vref, max(1e-4, 3e-7 * cnd), snoise["qvel"], scale=max(1.0, float(np.abs(vref).max()), dt * qacc_max), sig=sig, ctx=ctx)
     nz = int((np.abs(Di_ref) > 1e-9).sum())
     if nz >= 3:
       nontrivial = True
